@@ -18,11 +18,34 @@ def impl_run(case, workdir):
     return obs, it.stats
 
 
+def reduce_obs(obs):
+    """(result, log lines, reduced tree lines) per step, for the spec oracle"""
+    out = []
+    for step in obs:
+        k = step.index("--tree")
+        log = [l for l in step[1:k] if not l.startswith("TEMP-LEFT")]
+        tree = []
+        for l in step[k + 1:]:
+            if "|F|" in l:
+                l = l.rsplit("|", 2)[0]
+            tree.append(l)
+        out.append((step[0], log, sorted(tree, key=lambda x: x.encode("utf-8"))))
+    return out
+
+
+def coq_got(red):
+    return "[" + ";\n ".join("(%s, [%s], [%s])" % (coq_str(r), "; ".join(coq_str(l) for l in lg), "; ".join(coq_str(l) for l in tr))
+                             for r, lg, tr in red) + "]"
+
+
 def coq_case_defs(cases, obss, prefix="c"):
     out = []
     for i, (case, obs) in enumerate(zip(cases, obss)):
         em = Emit(case)
         out.append("Definition %s%d_h : list hstep :=\n  %s." % (prefix, i, em.history()))
+        out.append("Definition %s%d_got : list (string * list string * list string) :=\n %s." % (prefix, i, coq_got(reduce_obs(obs))))
+        out.append("Definition %s%d_spec : bool := match first_bad (ref_history %s %s %s%d_h init_world) %s%d_got with None => true | Some _ => false end." % (
+            prefix, i, cpath(case["cache"]), coq_str(case["name"]), prefix, i, prefix, i))
         out.append("Definition %s%d_want : list (list string) :=\n %s." % (prefix, i, coq_obs(obs)))
         out.append("Definition %s%d_chk : bool := match first_diff (run_history %s %s %s%d_h init_world) %s%d_want with None => true | Some _ => false end." % (
             prefix, i, cpath(case["cache"]), coq_str(case["name"]), prefix, i, prefix, i))
@@ -50,10 +73,11 @@ def run_shard(args):
     idx, cases, obss, workdir = args
     txt = COQ_HEADER + coq_case_defs(cases, obss) + "\n"
     txt += common.marker("res") + "Eval vm_compute in failing [%s].\n" % "; ".join("c%d_chk" % i for i in range(len(cases)))
+    txt += common.marker("spec") + "Eval vm_compute in failing [%s].\n" % "; ".join("c%d_spec" % i for i in range(len(cases)))
     rc, out = common.coq_eval(workdir, "shard%d" % idx, txt, timeout=1200)
     if rc != 0:
-        return idx, None, out[-3000:]
-    return idx, common.parse_nat_list(out, "res"), None
+        return idx, None, None, out[-3000:]
+    return idx, common.parse_nat_list(out, "res"), common.parse_nat_list(out, "spec"), None
 
 
 def compare(cases, workdir, parallel=8):
@@ -68,14 +92,20 @@ def compare(cases, workdir, parallel=8):
     for k in range(0, len(cases), SHARD):
         shards.append((k // SHARD, cases[k:k + SHARD], obss[k:k + SHARD], workdir))
     dis = []
+    specbad = []
     err = None
     with ThreadPoolExecutor(max_workers=parallel) as ex:
-        for idx, bad, e in ex.map(run_shard, shards):
+        for idx, bad, sbad, e in ex.map(run_shard, shards):
             if e is not None:
                 err = e
                 continue
             for b in bad or []:
                 dis.append(idx * SHARD + b)
+            for b in sbad or []:
+                specbad.append(idx * SHARD + b)
+    from .gen import cache_only_dirs
+    compare.specbad = [i for i in specbad if not cache_only_dirs(cases[i])]
+    compare.spec_skipped = sum(1 for c in cases if cache_only_dirs(c))
     out = []
     for i in dis[:5]:
         mo, e = model_obs(cases[i], workdir, "dbg%d" % i)
@@ -89,3 +119,19 @@ def compare(cases, workdir, parallel=8):
     for i in dis[5:]:
         out.append({"case": cases[i], "impl": obss[i]})
     return out, obss, stats, err
+
+
+def spec_req(case, workdir, tag="spec"):
+    """What the reference semantics requires of each step (for reports)."""
+    em = Emit(case)
+    txt = COQ_HEADER + "Definition h : list hstep :=\n  %s.\n" % em.history()
+    txt += ('Definition nl := String (Ascii.ascii_of_nat 10) "".\n'
+            'Definition show_req (r : step_req) := join nl ([sq_result r] ++ sq_log r ++ ["--tree"] ++ match sq_tree r with Some t => t | None => ["<unconstrained>"] end).\n'
+            'Eval vm_compute in join (nl ++ "@@STEP" ++ nl) (map show_req (ref_history %s %s h init_world)).\n'
+            % (cpath(case["cache"]), coq_str(case["name"])))
+    rc, out = common.coq_eval(workdir, tag, txt, timeout=600)
+    m = re.search(r'=\s*"(.*)"\s*:\s*string', out, re.S)
+    if rc != 0 or not m:
+        return None, out[-2000:]
+    body = m.group(1).replace('""', '"')
+    return [st.split("\n") for st in body.split("\n@@STEP\n")], None
